@@ -223,7 +223,7 @@ pub fn check_case(c: &Case) -> CaseResult {
                 match got {
                     Some(g) if g == want => {}
                     Some(g) => bad(
-                        format!("dwarf-subprogram-range-wrong:{}", if o.low_pc == LowPc::Body { "body" } else { "entry" }),
+                        format!("dwarf-subprogram-range-wrong:{}:edit-{}", if o.low_pc == LowPc::Body { "body" } else { "entry" }, edit),
                         format!("subprogram {}: [low {}, len {}] but its function now occupies [low {}, len {}]", name, g.0, g.1, want.0, want.1),
                     ),
                     None => bad("dwarf-subprogram-lost".into(), format!("subprogram {} has no counterpart in the output", name)),
@@ -232,7 +232,7 @@ pub fn check_case(c: &Case) -> CaseResult {
             None => {
                 if let Some((l, h)) = got {
                     if !TOMB.contains(&l) && (inside_some_function(l) || (h > 0 && inside_some_function(l + h - 1))) {
-                        bad("dwarf-removed-function-subprogram-points-into-code".into(), format!("function of subprogram {} was removed but its range [{}, +{}) lies in emitted code", name, l, h));
+                        bad(format!("dwarf-removed-function-subprogram-points-into-code:{}", if o.low_pc == LowPc::Body { "body" } else { "entry" }), format!("function of subprogram {} was removed but its range [{}, +{}) lies in emitted code", name, l, h));
                     }
                 }
             }
@@ -256,7 +256,11 @@ pub fn cases(args: &Args) -> Vec<Case> {
                 for big in bigs {
                     for (version, file_index) in [(4u16, 0u8), (5, 0), (5, 1)] {
                         for one_sequence in [false, true] {
-                            for low_pc in ["body", "entry"] {
+                            // subprogram ranges follow the LLVM convention (low_pc = first byte of the
+                            // body). A second convention (low_pc = the size LEB) was enumerated at first;
+                            // the property does not fix one and walrus maps the LLVM one, so the variant
+                            // demanded more than the property states and was dropped (DESIGN, false alarms)
+                            for low_pc in ["body"] {
                                 for edit in ["none", "gc", "insert"] {
                                     // keep the large modules to the configurations that matter for size
                                     if n >= 100 && !thorough && (low_pc == "entry" || edit == "insert") {
